@@ -3,179 +3,7 @@
 use crate::render::{Spec, ALIGNS};
 use vcore::{mask, Layout, Out, ZN};
 
-/// digit value of a byte in the given radix
-fn digit(b: u8, radix: u32) -> Option<u8> {
-    let v = match b {
-        b'0'..=b'9' => b - b'0',
-        b'a'..=b'f' => b - b'a' + 10,
-        b'A'..=b'F' => b - b'A' + 10,
-        _ => return None,
-    };
-    if (v as u32) < radix {
-        Some(v)
-    } else {
-        None
-    }
-}
-
-pub struct Lit {
-    pub neg: bool,
-    /// all digits, integer part first
-    pub digits: Vec<u8>,
-    /// number of fractional digits
-    pub nfrac: usize,
-}
-
-/// grammar: [+-]? digit* ( '.' digit* )?  with at least one digit
-pub fn lex(s: &str, radix: u32) -> Option<Lit> {
-    let b = s.as_bytes();
-    let mut i = 0;
-    let mut neg = false;
-    if i < b.len() && (b[i] == b'+' || b[i] == b'-') {
-        neg = b[i] == b'-';
-        i += 1;
-    }
-    let mut digits = vec![];
-    let mut nfrac = 0;
-    let mut seen_point = false;
-    while i < b.len() {
-        if b[i] == b'.' {
-            if seen_point {
-                return None;
-            }
-            seen_point = true;
-        } else {
-            let d = digit(b[i], radix)?;
-            digits.push(d);
-            if seen_point {
-                nfrac += 1;
-            }
-        }
-        i += 1;
-    }
-    if digits.is_empty() {
-        return None;
-    }
-    Some(Lit { neg, digits, nfrac })
-}
-
-/// floor(F * 2^(frac+1)) and sticky for the fraction F = 0.d1 d2 ... given by its digits
-fn frac_scaled<const L: usize>(fd: &[u8], radix: u32, frac: u32) -> (ZN<L>, bool) {
-    let mut n = ZN::<L>::ZERO;
-    for &d in fd {
-        n = n.mul_small(radix as u64).add(ZN::<L>::from_u64(d as u64));
-    }
-    let mut t = n.shl(frac + 1);
-    let mut sticky = false;
-    let mut left = fd.len();
-    let (chunk_digits, chunk) = {
-        let mut k = 0usize;
-        let mut p = 1u64;
-        while p <= (1u64 << 62) / radix as u64 {
-            p *= radix as u64;
-            k += 1;
-        }
-        (k, p)
-    };
-    while left > 0 {
-        let (k, p) = if left >= chunk_digits { (chunk_digits, chunk) } else { (left, (radix as u64).pow(left as u32)) };
-        let (q, r) = t.divrem_small(p);
-        if r != 0 {
-            sticky = true;
-        }
-        t = q;
-        left -= k;
-    }
-    (t, sticky)
-}
-
-const MAX_FRAC_DIGITS: usize = 900;
-
-/// Rounded magnitude round_half_even(|literal| * 2^frac): (value modulo 2^128, value >= 2^128)
-fn rounded_mag(lit: &Lit, radix: u32, frac: u32) -> (u128, bool) {
-    let nint = lit.digits.len() - lit.nfrac;
-    let (id, fd_all) = lit.digits.split_at(nint);
-    // fraction: strip trailing zeros; beyond MAX_FRAC_DIGITS only "is there a non-zero digit" matters,
-    // provided the kept prefix does not end in a long run of (radix-1) digits (never generated here)
-    let mut fd = fd_all;
-    while let Some((&0, rest)) = fd.split_last() {
-        fd = rest;
-    }
-    let mut extra_sticky = false;
-    if fd.len() > MAX_FRAC_DIGITS {
-        extra_sticky = fd[MAX_FRAC_DIGITS..].iter().any(|&d| d != 0);
-        fd = &fd[..MAX_FRAC_DIGITS];
-        // (for power-of-two radices truncation can never carry into the kept bits)
-        assert!(radix != 10 || !fd[MAX_FRAC_DIGITS - 60..].iter().all(|&d| d == 9), "text oracle: truncated decimal fraction ends in a run of nines");
-    }
-    let (t, sticky) = if (fd.len() as f64 * 4.0) as u32 + frac + 8 <= 500 { let (t, s) = frac_scaled::<8>(fd, radix, frac); (t.resize::<64>(), s) } else { frac_scaled::<64>(fd, radix, frac) };
-    let sticky = sticky || extra_sticky;
-    let half = t.is_odd();
-    let base = t.shr_floor(1); // floor(F * 2^frac) < 2^frac
-    // integer part modulo 2^128 (wrapping), with overflow tracking
-    let mut acc: u128 = 0;
-    let mut big = false;
-    for &d in id {
-        let (a, o1) = acc.overflowing_mul(radix as u128);
-        let (a, o2) = a.overflowing_add(d as u128);
-        big |= o1 | o2;
-        acc = a;
-    }
-    let int_odd = acc & 1 == 1;
-    // I * 2^frac modulo 2^128
-    let (shifted, lost) = if frac >= 128 { (0u128, acc != 0) } else { (acc << frac, frac > 0 && (acc >> (128 - frac)) != 0) };
-    big |= lost;
-    let base128 = base.low128();
-    let base_big = !base.fits_u128(); // only when frac = 128 and F*2^128 rounds ... base < 2^128 always
-    assert!(!base_big);
-    let parity_odd = if frac == 0 { int_odd } else { base128 & 1 == 1 };
-    let up = half && (sticky || parity_odd);
-    let (m1, o1) = shifted.overflowing_add(base128);
-    let (m2, o2) = m1.overflowing_add(up as u128);
-    (m2, big | o1 | o2)
-}
-
-/// Expected outcome of parsing. form: 0 plain, 1 saturating, 2 wrapping, 3 overflowing.
-/// Errors are encoded as E(0) = overflow, E(1) = any other error.
-pub fn expect_parse(l: Layout, radix: u32, form: usize, s: &str) -> Out {
-    let Some(lit) = lex(s, radix) else { return Out::E(1) };
-    let (m, huge) = rounded_mag(&lit, radix, l.frac);
-    // signed result S = +-m (m possibly reduced modulo 2^128 with huge = true)
-    let w = l.w;
-    let neg = lit.neg && (m != 0 || huge);
-    let fits = if huge {
-        false
-    } else if l.signed {
-        if neg {
-            m <= 1u128 << (w - 1)
-        } else {
-            m < 1u128 << (w - 1)
-        }
-    } else if neg {
-        false
-    } else {
-        w == 128 || m >> w == 0
-    };
-    let wrapped = (if neg { m.wrapping_neg() } else { m }) & mask(w);
-    match form {
-        0 => {
-            if fits {
-                Out::V(wrapped)
-            } else {
-                Out::E(0)
-            }
-        }
-        1 => Out::V(if fits {
-            wrapped
-        } else if lit.neg {
-            l.min_raw()
-        } else {
-            l.max_raw()
-        }),
-        2 => Out::V(wrapped),
-        _ => Out::P(wrapped, !fits),
-    }
-}
+pub use vcore::lit::{expect_parse, lex, Lit};
 
 // ---------------------------------------------------------------- formatting
 
